@@ -16,8 +16,8 @@
                            walk ("" and "." skipped, ".." pops) — finding 0;
      req_enters_uploads q  an object route whose walk climbs or puts ".uploads" directly
                            below the bucket directory at some point — finding 1;
-     bad_bucket b          the bucket name is "", ".", "..", or has "/" or "%" — finding 2;
-     req_noslash q         a POST upload whose key does not begin with "/" — finding 3. *)
+     bad_bucket b          the bucket name is "", ".", "..", or has "/" or "%" — finding 2.
+   (former finding 3, the POST upload joining bucket and key without "/", is repaired.) *)
 From Coq Require Import List NArith Bool String.
 From SW Require Import model.S3List model.S3Paths proof.S3PathsProofs proof.S3PathsCompat.
 Import ListNotations.
@@ -47,7 +47,7 @@ Print Assumptions c29_contained_refuted_routes.
    bucket directory (a ".." segment that stays inside, as in x/../y, is fine), every
    path of every route stays inside the bucket directory — for every fixture. *)
 Theorem c29_contained_partial : forall fx q,
-  bad_bucket (q_bucket q) = false -> req_climbs q = false -> req_noslash q = false ->
+  bad_bucket (q_bucket q) = false -> req_climbs q = false ->
   forallb call_contained (calls fx q) = true.
 Proof. exact calls_contained_partial. Qed.
 Print Assumptions c29_contained_partial.
@@ -63,7 +63,7 @@ Print Assumptions c29_candidates_contained_partial.
 
 (* calls and purge together, as in the first version of this file *)
 Theorem c29_all_contained_partial : forall fx q,
-  bad_bucket (q_bucket q) = false -> req_climbs q = false -> req_noslash q = false ->
+  bad_bucket (q_bucket q) = false -> req_climbs q = false ->
   (forall k, In k (q_keys q) -> climbs k = false) ->
   all_contained fx q = true.
 Proof. exact contained_partial2. Qed.
@@ -73,7 +73,7 @@ Print Assumptions c29_all_contained_partial.
    on the routes it was stated for, its trigger set contains the new one. *)
 Theorem c29_trigger_narrowed : forall q,
   old_route (q_route q) = true -> bad_bucket (q_bucket q) = false ->
-  req_dotdot q = false -> req_climbs q = false /\ req_noslash q = false.
+  req_dotdot q = false -> req_climbs q = false.
 Proof. exact dotdot_covers_climbs. Qed.
 Print Assumptions c29_trigger_narrowed.
 
@@ -119,7 +119,7 @@ Print Assumptions c29_uploads_hidden_refuted_dotdot.
    route whose walk neither climbs nor passes through ".uploads" never touches the area *)
 Theorem c29_uploads_hidden_partial : forall fx q,
   bad_bucket (q_bucket q) = false -> q_bucket q <> ".uploads" ->
-  req_enters_uploads q = false -> req_noslash q = false -> uploads_hidden fx q = true.
+  req_enters_uploads q = false -> uploads_hidden fx q = true.
 Proof. exact uploads_hidden_partial2. Qed.
 Print Assumptions c29_uploads_hidden_partial.
 
@@ -150,21 +150,23 @@ Theorem c29_bad_bucket_refuted :
 Proof. exact bad_bucket_refuted. Qed.
 Print Assumptions c29_bad_bucket_refuted.
 
-(* Finding 3: the POST upload joins bucket and key without "/": POST /oth with
-   key = er/obj writes /buckets/other/obj.  REFUTED without any ".." *)
-Theorem c29_postpolicy_refuted :
-  bad_bucket (q_bucket post_noslash) = false /\ req_climbs post_noslash = false /\ req_noslash post_noslash = true /\
-  map snd (calls fx_demo post_noslash) = [Http MPut "/buckets/other/obj"] /\
-  forallb call_contained (calls fx_demo post_noslash) = false.
-Proof. exact postpolicy_refuted. Qed.
-Print Assumptions c29_postpolicy_refuted.
+(* Former finding 3, REPAIRED in /repo (fix: POST policy upload must keep the bucket and
+   the form key apart): POST /oth with key = er/obj used to write /buckets/other/obj; the
+   POST route is now covered by c29_contained_partial without any extra hypothesis, and
+   the former witness stays inside its bucket. *)
+Theorem c29_postpolicy_repaired :
+  bad_bucket (q_bucket post_noslash) = false /\ req_climbs post_noslash = false /\
+  map snd (calls fx_demo post_noslash) = [Http MPut "/buckets/oth/er/obj"] /\
+  forallb call_contained (calls fx_demo post_noslash) = true.
+Proof. exact postpolicy_repaired. Qed.
+Print Assumptions c29_postpolicy_repaired.
 
 (* non-vacuity: an ordinary request with "." and empty segments satisfies the
    hypotheses, produces a call, and is contained *)
 Example c29_example :
   let q := rq RPutTag "x/./y//z" "" "" [] in
   bad_bucket (q_bucket q) = false /\ req_dotdot q = false /\ req_uploads_seg q = false /\
-  req_climbs q = false /\ req_enters_uploads q = false /\ req_noslash q = false /\
+  req_climbs q = false /\ req_enters_uploads q = false /\
   map snd (calls fx_demo q) = [GLookup "/buckets/b/x/./y/" "z"] /\
   all_contained fx_demo q = true /\ uploads_hidden fx_demo q = true.
 Proof. exact partial_nonvacuous. Qed.
